@@ -889,7 +889,8 @@ impl QueryRouter {
         let num_parameters = message_cursor.get_i16();
 
         for i in 0..num_parameters {
-            let mut len = message_cursor.get_i32() as usize;
+            // NULL parameters have a length of -1 and no value bytes.
+            let mut len = cmp::max(message_cursor.get_i32(), 0) as usize;
             let format = match &parameter_format {
                 ParameterFormat::Text => ParameterFormat::Text,
                 ParameterFormat::Uniform(format) => *format.clone(),
@@ -929,6 +930,7 @@ impl QueryRouter {
                                 "Got wrong length for integer type parameter in bind: {}",
                                 len
                             );
+                            message_cursor.advance(cmp::min(len, message_cursor.remaining()));
                             continue;
                         }
                     },
@@ -937,6 +939,9 @@ impl QueryRouter {
                 };
 
                 shards.insert(sharder.shard(value));
+            } else {
+                // Not a sharding key: step over the value, the next parameter starts after it.
+                message_cursor.advance(cmp::min(len, message_cursor.remaining()));
             }
         }
 
